@@ -343,9 +343,9 @@ def _rows_of_name(ctx: Context, fi: FuncInfo, name: ast.Name, nd) -> Optional[st
 def run(ctx: Context, R: Reporter):
     w = wrapper_fn(ctx)
     d = dispatcher_fn(ctx, w)
-    rule_a(ctx, R, w, d)
-    rule_b(ctx, R, d)
-    rule_c(ctx, R, w)
+    R.guard(rule_a, ctx, R, w, d)
+    R.guard(rule_b, ctx, R, d)
+    R.guard(rule_c, ctx, R, w)
 
 
 def variants():
